@@ -205,29 +205,21 @@ func GetNode(children []*Node, path string) (*Node, bool) {
 	pathSplit := strings.SplitN(path, "/", 2)
 	searchName := pathSplit[0]
 
-	left := 0
-	right := len(children)
-	for {
-		middle := (left + right) / 2
-		node := children[middle]
-		if node.Name == searchName {
-			if len(node.Children) == 0 {
-				return node, true
-			}
-			if len(pathSplit) > 1 {
-				return GetNode(node.Children, pathSplit[1])
-			} else {
-				return node, true
-			}
-		} else if node.Name < searchName {
-			left = middle + 1
-		} else {
-			right = middle
+	// children are stored in the order of the staged paths, in which a directory
+	// sorts as '<name>/': 'test-data' and 'test.c' come before the directory 'test'.
+	// That is not the order of the plain names, so a binary search by name can
+	// miss an entry; look at every child instead.
+	for _, node := range children {
+		if node.Name != searchName {
+			continue
 		}
-
-		if right-left < 1 {
-			break
+		if len(node.Children) == 0 {
+			return node, true
 		}
+		if len(pathSplit) > 1 {
+			return GetNode(node.Children, pathSplit[1])
+		}
+		return node, true
 	}
 
 	return nil, false
